@@ -104,6 +104,12 @@ B("c02-binpack-csv-owner", "C02", "C02.R3", (P + "bin_pack/generator.py", "CSVGe
 B("c02-knapsack-time", "C02", "C02.R2", (P + "knapsack/env.py", "Knapsack.step", "insert_first", "import time\n_t = time.time()"))
 B("c02-cvrp-cache", "C02", "C02.R1", (R + "cvrp/env.py", "CVRP._state_to_observation", "insert_first", "self._cache = state"))
 B("c02-helper-mutates-arg", "C02", "C02.R3", (R + "cleaner/env.py", "Cleaner.step", "insert_first", "state.grid = state.grid"))
+B("c02-binpack-shared-extras", "C02", "C02.R7", (P + "bin_pack/env.py", "BinPack.__init__", "insert_first", "self._extras0 = {}"),
+  (P + "bin_pack/env.py", "BinPack.reset", "expr", "restart(observation, extras)", "restart(observation, self._extras0)"))
+B("c02-tsp-rbg", "C02", "C02.R2", (R + "tsp/generator.py", "UniformGenerator.__call__", "expr", "jax.random.uniform(sample_key, (self.num_cities, 2), minval=0, maxval=1)",
+  "jax.random.uniform(jax.random.wrap_key_data(jnp.tile(jax.random.key_data(sample_key), 2), impl='rbg'), (self.num_cities, 2), minval=0, maxval=1)"))
+B("c02-autoreset-counter", "C02", "C02.R8", ("jumanji/wrappers.py", "AutoResetWrapper._auto_reset", "insert_first", "self._n_resets = getattr(self, '_n_resets', 0) + 1"))
+T("c02-twin-fresh-extras-dict", "C02", (P + "bin_pack/env.py", "BinPack.reset", "expr", "restart(observation, extras)", "restart(observation, dict(extras))"))
 T("c02-twin-local-dict", "C02", (R + "snake/env.py", "Snake.step", "insert_first", "scratch = {}\nscratch['a'] = action"))
 
 # ---------------------------------------------------------------- C07 (and C04.R2 / C01.R5 through the same engine)
